@@ -77,8 +77,13 @@ func (c *lruCache) BulkAdd(id, n uint64) {
 	c.Add(id, n)
 }
 
-// Add adds a count to the cache.
+// Add adds a count to the cache. A count of 0 removes the entry: an empty
+// row must not take a slot from (and evict) a row that has columns.
 func (c *lruCache) Add(id, n uint64) {
+	if n == 0 {
+		c.cache.Remove(id)
+		return
+	}
 	c.cache.Add(id, n)
 	c.counts[id] = n
 }
